@@ -149,7 +149,7 @@ Proof.
   split; [vm_compute; reflexivity|]. split; vm_compute; reflexivity.
 Qed.
 
-(* ---------- the capture witness: inside the guard since the repair <commitcap>; the call-to-main witness:
+(* ---------- the capture witness: inside the guard since the repair d5d4151; the call-to-main witness:
    outside ---------- *)
 Example guard_accepts_capture_witness :
   prog_guard capture_witness = true /\ NoDup (map fdname (fcpdefs capture_witness)) /\
